@@ -9,14 +9,38 @@ RULE = ('1-3 (thorough 1-4) processes placed at depth 0-2, each with 1-4 ports: 
         'listing every sub-key, ".." at any position, two ports wired to one store; partial initial states and glob '
         'children named by the initial state. Kinds: view (topology view as absolute paths + states dict), invert '
         '(inverse_topology of a token update), apply (state after the inverted update). Non-trivial: >=2 ports; '
-        'distinct by rendered term.')
+        'distinct by rendered term. Glob-topology stream (oracle only): a glob port whose topology entry has a "*" '
+        'sub-topology with _path beside or inside it, process at the root or one level down, 1-2 variables at depth '
+        '1-3 below each child, driven through a real Engine for 2-4 steps: every read comes from the named node, every '
+        'token lands on it, nothing else changes, the topology object is left as it was.')
 ASSUMPTIONS = [
     'well-formed domain: every declared port is mapped; a dict topology carries _path or lists every declared sub-key; no path climbs above the root; variable names and branch names are disjoint (a node is never both)',
     'all variables use the set updater and integer values; process nodes are not represented in the model tree',
-    'glob children exist through the initial state; the undocumented "*" entry of a _path dict is not generated',
+    'glob children exist through the initial state; "*" entries of topology dicts are outside Model/Wire.v and decided by the glob-topology oracle stream only',
 ]
 IMPORTS, CHECK_FN, BAD_TERM = wire.IMPORTS, wire.CHECK_FN, wire.BAD_TERM
-render, run_impl, stat_key, nontrivial, model_output = wire.render, wire.run_impl, wire.stat_key, wire.nontrivial, wire.model_output
+model_output = wire.model_output
+
+
+def _gt(c):
+    from harness import globtopo
+    return globtopo if c['kind'] == 'globtopo' else None
+
+
+def render(c, ob):
+    return None if _gt(c) else wire.render(c, ob)
+
+
+def run_impl(c):
+    return _gt(c).run_impl(c) if _gt(c) else wire.run_impl(c)
+
+
+def stat_key(c, ob):
+    return _gt(c).stat_key(c, ob) if _gt(c) else wire.stat_key(c, ob)
+
+
+def nontrivial(c, ob):
+    return _gt(c).nontrivial(c, ob) if _gt(c) else wire.nontrivial(c, ob)
 
 
 def generate(seed, tier, enlarged=False):
@@ -24,7 +48,11 @@ def generate(seed, tier, enlarged=False):
     n = 300 if tier == 'quick' else 6000
     if enlarged:
         n *= 3
-    return wire.gen_cases(rng, n, ['view', 'invert', 'apply', 'apply'], 3 if tier == 'quick' else 4)
+    cases = wire.gen_cases(rng, n, ['view', 'invert', 'apply', 'apply'], 3 if tier == 'quick' else 4)
+    # glob ports whose topology carries a '*' entry (oracle only: no '*' entries in the model's topologies)
+    from harness import globtopo
+    cases += [globtopo.gen_case(rng) for _ in range(n // 5)]
+    return cases
 
 
 def flat_tokens(u, prefix=()):
@@ -65,6 +93,9 @@ def oracle(c, ob, rng):
     Required: every node changes by exactly the sum of the tokens of the port variables that read
     it, and no other node changes."""
     msgs = []
+    if c['kind'] == 'globtopo':
+        from harness import globtopo
+        return globtopo.oracle(c, ob, rng)
     if c['kind'] != 'apply' or 'ok' not in ob:
         return msgs
     from vivarium.library.topology import inverse_topology
